@@ -2,6 +2,7 @@
 From Coq Require Import String List NArith Bool.
 From YV Require Import Gen.SnapshotGen Compiler.Snapshot Compiler.SnapshotProofs.
 From YV Require Gen.AstBuilderArms Compiler.Accounting Compiler.AccountingProofs Compiler.AccountingC06.
+From YV Require Compiler.Suppress Compiler.SuppressProofs.
 Import ListNotations.
 Local Open Scope N_scope.
 
@@ -92,3 +93,19 @@ Example c06_nonvacuous :
                     fval_eqb (restore ex_state (apply_all ex_work ex_state) f) (ex_state f)) all_fields = true /\
   fval_eqb (apply_all ex_work ex_state F_anchored_sub_patterns) (ex_state F_anchored_sub_patterns) = false.
 Proof. vm_compute. repeat split. Qed.
+
+(* per-source state: every exit of add_source taken after the warning-suppression hook exists
+   clears the suppressions (exits regenerated from the source) *)
+Theorem add_source_exits_clear_suppressions : Compiler.Suppress.all_exits_clear = true.
+Proof. vm_compute. reflexivity. Qed.
+Print Assumptions add_source_exits_clear_suppressions.
+
+(* hence, for every history of add_source calls (each with arbitrary suppression comments, arbitrary
+   warnings, leaving through any of its exits, failing or not), the warnings recorded are exactly
+   those each source produces on a fresh compiler, and no suppression is left behind *)
+Theorem warnings_independent_of_history : forall disabled h,
+  forallb Compiler.Suppress.valid_exit h = true ->
+  Compiler.Suppress.warns (Compiler.Suppress.run disabled h) = flat_map (Compiler.Suppress.alone disabled) h /\
+  Compiler.Suppress.supp (Compiler.Suppress.run disabled h) = [].
+Proof. exact (Compiler.SuppressProofs.warnings_independent_of_history_gen add_source_exits_clear_suppressions). Qed.
+Print Assumptions warnings_independent_of_history.
